@@ -284,7 +284,7 @@ class Ctx(object):
         if self.pos < len(self.prefix):
             ent = self.prefix[self.pos]
             d = ent[0]
-            if ent[3] is not None and ent[3] != h:
+            if d == 'c' or (ent[3] is not None and ent[3] != h):
                 self.note_inconclusive('nondeterministic-harness')
                 raise Inconclusive('decision replay diverged (harness not deterministic)')
             if self.pos == len(self.prefix) - 1:
@@ -335,6 +335,45 @@ class Ctx(object):
         if cb:
             cb()
         return d
+
+    def pick_value(self, n):
+        """concretise IR node n: a multi-way decision recorded in the prefix as
+        ['c', value, state, tried]; every feasible value becomes its own path"""
+        from . import ir
+        self.ndec += 1
+        if self.pos < len(self.prefix):
+            ent = self.prefix[self.pos]
+            if ent[0] != 'c':
+                self.note_inconclusive('nondeterministic-harness')
+                raise Inconclusive('decision replay diverged (harness not deterministic)')
+            if ent[2] == 'advance':
+                # all earlier values explored: find a value not tried yet
+                if len(ent[3]) >= self.conc_cap:
+                    ent[2] = 'done'
+                    self.note_inconclusive('cap:concretize')
+                    raise Inconclusive('concretisation cap (%d values) at a single site' % self.conc_cap)
+                w = n.w
+                t = ir.full(n)
+                ok, m = self.feasible(z3.And(*[t != z3.BitVecVal(v, w) for v in ent[3]]))
+                if not ok:
+                    ent[2] = 'done'
+                    raise Abort()
+                v = ir.evaluate(n, m)
+                ent[1] = v
+                ent[3].append(v)
+                ent[2] = 'live'
+                self.model = m
+            else:
+                v = ent[1]
+                self.model = None
+        else:
+            m = self.ensure_model()
+            v = ir.evaluate(n, m)
+            self.prefix.append(['c', v, 'live', [v]])
+        self.pos += 1
+        self.stats.decisions += 1
+        self.solver.add(ir.eq(n, ir.const(v)))
+        return v
 
     def _branch_lazy(self, sb):
         # wide comparison: fork without consulting the solver
@@ -471,12 +510,15 @@ def explore(fn, V, opts=None, known=()):
             Ctx.cur = None
         # backtrack
         prefix = c.prefix[:c.pos] if c.pos < len(c.prefix) else c.prefix
-        while prefix and prefix[-1][1]:
+        while prefix and (prefix[-1][2] == 'done' if prefix[-1][0] == 'c' else prefix[-1][1]):
             prefix.pop()
         if not prefix:
             break
         last = prefix[-1]
-        prefix[-1] = [not last[0], True, last[2], last[3]]
+        if last[0] == 'c':
+            last[2] = 'advance'
+        else:
+            prefix[-1] = [not last[0], True, last[2], last[3]]
         if len(res.violations) >= max_viol:
             res.complete = False
             break
